@@ -268,8 +268,9 @@ RetPlain(r) ==
             /\ ItemsEq(o.items, pool[o.h].items)
             /\ (pool[o.h].kind = "iter" => o.len = Len(pool[o.h].items) /\ o.lo = o.len /\ o.hi = o.len)
        /\ (op.name = "debug" => r.dbg = r.dbgref)
-       \* O(1) conversions hand over the same heap block and never call the allocator (C15)
-       /\ (cfg.rec /\ ~e.err /\ (op.name \in {"into_boxed_slice", "into_vec", "try_from_boxed_slice", "box_into_iter"}
+       \* O(1) conversions hand over the same heap block and never call the allocator (C15): exactly the ones the
+       \* property names (by-value iteration of a Box is not among them)
+       /\ (cfg.rec /\ ~e.err /\ (op.name \in {"into_boxed_slice", "into_vec", "try_from_boxed_slice"}
                                    \/ (op.name = "try_from_vec" /\ ~op.spare)) =>
              /\ op.allocs = 0
              /\ r.outs[1].blk = op.blks[1])
